@@ -252,6 +252,16 @@ def drive(args):
                 e, b = isoc.do_dumps(m, codec, bc, hexb)
                 if b is not None:
                     add('valid message with binary chip data %s' % body.hex(), b, repr(m)[:200])
+            # chip data made of hundreds of the smallest TLVs (empty values, one-byte values), complete and ending inside a
+            # tag: as many items as an element of the configured capacity can hold
+            icap = min(int(bc[ib].get('field_length', 255)), 999 if bc[ib]['field_type'] == 'LLLVAR' else 99 if bc[ib]['field_type'] == 'LLVAR' else 255)
+            for k_, unit in enumerate((b'\x01\x00', b'\x82\x00', b'\x9f\x26\x00', b'\x5a\x01\x11', b'\x01\x00')):
+                for cut in (0, 1, 3, 4, 7, 9):
+                    body = (unit * 500)[:icap - cut - k_]
+                    m = {'MTI': '1240', 'DE' + ib: body}
+                    e, b = isoc.do_dumps(m, codec, bc, hexb)
+                    if b is not None:
+                        add('chip data of %d bytes made of %s items' % (len(body), unit.hex()), b, '')
             for tail in (b'\x9f', b'\x5f', b'\x9f\x80', b'\x9f\x26', b'\x82', b'\x9f\x26\x05\x01', b'\xbf\x0c\x01\x00', b'\x1f', b'\xdf\x81'):
                 for head in (b'', b'\x82\x02\x01\x02'):
                     m = {'MTI': '1240', 'DE' + ib: head + tail}
